@@ -7,6 +7,8 @@ tree is therefore computed from the abstract model and never by parsing text.
 """
 from __future__ import annotations
 
+import re
+
 from mc.canon import nb
 
 
@@ -547,10 +549,18 @@ class Enum(Item):
     def records(self, path):
         out = [dict(path="/".join(path), kind="enum", name=f"#{self.index}")]
         sub = path + (f"enum:#{self.index}",)
-        val = -1
+        val, prev = -1, ""
         for n, v in self.enumerators:
-            val = int(v) if v is not None else val + 1
-            out.append(dict(path="/".join(sub), kind="enumerator", name=n.lower(), initial=str(val)))
+            if v is None:
+                # one more than the previous enumerator; when that one is given by an expression the value is not known as a number
+                shown = str(val + 1) if val is not None else f"{prev}+1"  # (blanks are not compared)
+                val = val + 1 if val is not None else None
+            else:
+                shown = v.replace(" ", "")  # a literal (possibly with a kind suffix) or a constant expression: as written
+                m = re.fullmatch(r"(\d+)(_\w+)?", shown)
+                val = int(m.group(1)) if m else None
+            prev = n.lower()
+            out.append(dict(path="/".join(sub), kind="enumerator", name=n.lower(), initial=shown))
         return out
 
 
